@@ -549,6 +549,10 @@ func c03CheckDHCP(tb drv.TB, rec *drv.Rec, sub string, c c03DHCP) {
 		fail("broadcast-flag", m.Flags, c.Broadcast)
 		return
 	}
+	if m.Flags&0x7fff != 0 { // the flags word is the broadcast bit the caller supplied, nothing left over from the buffer
+		fail("flags-reserved-bits", fmt.Sprintf("%#04x", m.Flags), "0x8000 or 0x0000")
+		return
+	}
 	if m.SIAddr != [4]byte{} || m.GIAddr != [4]byte{} {
 		fail("siaddr/giaddr", fmt.Sprint(m.SIAddr, m.GIAddr), "zero")
 		return
